@@ -122,8 +122,16 @@ def gen_arcsides(kind, rng, anti):
     p.add_seg(a, b, bc=2)
     p.add_seg(c, d, bc=2)
     # both sides bulge to the right: arcs run counter-clockwise from the lower to the upper node
-    p.add_arc(a, d, ang, maxseg=rng.choice([5.0, 10.0, 2.5]), bc=0)
-    p.add_arc(b, c, ang, maxseg=rng.choice([5.0, 10.0]), bc=0)
+    # (the order in which the two partners are listed in the file decides which of them the mesher treats as "the second arc", whose
+    #  chain of chords it attaches from the other end: both orders are produced)
+    ms0, ms1 = rng.choice([5.0, 10.0, 2.5]), rng.choice([5.0, 10.0])
+    gen_arcsides.calls = getattr(gen_arcsides, "calls", 0) + 1
+    if (gen_arcsides.calls // 2) % 2 == 0:
+        p.add_arc(a, d, ang, maxseg=ms0, bc=0)
+        p.add_arc(b, c, ang, maxseg=ms1, bc=0)
+    else:
+        p.add_arc(b, c, ang, maxseg=ms1, bc=0)
+        p.add_arc(a, d, ang, maxseg=ms0, bc=0)
     p.add_label(W * 0.5, H * 0.12, 0, meshsize=rng.choice([0.5, 0.8]))
     add_box(p, W * 0.45, H * 0.55, W * 0.7, H * 0.85, 1, 0.4)
     sides = [dict(bc="per1", kind="arc", A=((0.0, 0.0), (0.0, H), ang), motion=("t", W, 0.0))]
